@@ -14,7 +14,7 @@
 (* real endpoints) and checks that the postcondition holds in the model for every edge.       *)
 EXTENDS Integers, Sequences, FiniteSets, TLC
 
-Cfgs   == {"one", "vhosts", "vhosts-strict", "hidden1", "hidden2"}    \* vhosts-strict: named host blocks only, a name may match none
+Cfgs   == {"one", "vhosts", "vhosts-strict", "hidden1", "hidden2", "one-nokem", "one-authkeys"}    \* vhosts-strict: named host blocks only, a name may match none
 States == {"idle", "pending", "established", "closed", "client-wSH", "client-wSA", "client-wHP", "client-open",
            "env-sni", "env-certs", "env-srvcerts"}
 (* The "envelope" derivation is a protocol-following hostile peer: a well-formed, encrypted and  *)
@@ -32,13 +32,15 @@ Reachable(cfg, st) ==
     /\ (st = "client-wHP") => cfg \in {"hidden1", "hidden2"}
     /\ (st = "env-sni") => cfg \in {"one", "vhosts", "vhosts-strict"}
     /\ (cfg = "vhosts-strict") => st \in {"pending", "env-sni"}
+    /\ (cfg = "one-nokem") => st \in {"idle", "established"}          \* a discoverable-only server without any KEM key
+    /\ (cfg = "one-authkeys") => st \in {"idle", "env-certs"}         \* clients verified against authorized keys and the CA store
 
 Available(cfg, st, base) ==
     CASE base = "none" -> st \notin {"env-sni", "env-certs", "env-srvcerts"}
       [] base = "sni" -> st = "env-sni"
       [] base = "certs" -> st = "env-certs"
       [] base = "srvcerts" -> st = "env-srvcerts"
-      [] base \in {"CH", "CA", "CL"} -> cfg \in {"one", "vhosts", "vhosts-strict"} /\ st \notin {"env-sni", "env-certs", "env-srvcerts"}
+      [] base \in {"CH", "CA", "CL"} -> cfg \in {"one", "vhosts", "vhosts-strict", "one-nokem", "one-authkeys"} /\ st \notin {"env-sni", "env-certs", "env-srvcerts"}
       [] base = "HR" -> st \notin {"env-sni", "env-certs", "env-srvcerts"}
       [] base = "TR" -> st \in {"established", "closed"}
       [] base \in {"CA-pending", "CL-pending", "TR-pending"} -> st = "pending"
